@@ -316,15 +316,36 @@ def reaching_value(func, name, lineno):
 
 
 def parse_expr(text):
-    """Parse expected-code text into an expression (or statement) node; None if it is prose."""
-    try:
-        tree = ast.parse(text.strip())
-    except SyntaxError:
+    """Parse expected/found *code* text into an AST (expression, statement, list of statements); None if it is prose.
+    Lenient about the ways code is quoted in messages: a compound-statement header without body (``if x:``, ``for a in b``),
+    several statements joined by ``;`` or `` / ``."""
+    text = text.strip()
+    if not text:
         return None
-    if len(tree.body) != 1:
-        return None
-    stmt = tree.body[0]
-    return stmt.value if isinstance(stmt, ast.Expr) else stmt
+    candidates = [text]
+    if text.endswith(':'):
+        candidates.append(text + ' pass')
+    if text.startswith(('for ', 'while ', 'if ', 'elif ', 'with ')) and not text.endswith(':') and '\n' not in text:
+        candidates.append(text + ': pass')
+    for cand in candidates:
+        try:
+            tree = ast.parse(cand)
+        except SyntaxError:
+            continue
+        if not tree.body:
+            return None
+        if len(tree.body) == 1:
+            stmt = tree.body[0]
+            node = stmt.value if isinstance(stmt, ast.Expr) else stmt
+            # a bare word or a phrase that happens to parse ("none", "x only read") is prose
+            return node
+        return tree.body
+    for sep in (' / ',):
+        if sep in text:
+            parts = [parse_expr(t) for t in text.split(sep)]
+            if all(p is not None for p in parts):
+                return parts
+    return None
 
 
 def skeleton(node):
